@@ -118,7 +118,10 @@ func (c *c08Case) runPresence(ctx *core.Ctx) {
 	}
 	if has(3) {
 		files["data/a.yml"] = yml(3) + "d2: fromA\n"
-		files["data/b.yml"] = "d2: fromB\n"
+		files["data/b.yml"] = "d2: fromB\nd3: fromB\n"
+		// (both spellings of the extension, in one directory order: 0.yaml < b.yml < c.yaml)
+		files["data/0.yaml"] = "d3: from0yaml\nd4: from0yaml\n"
+		files["data/c.yaml"] = "d4: fromCyaml\n"
 	}
 	ref := c.Var
 	if c.Type == "list" {
@@ -367,6 +370,9 @@ func (c *c08Case) runPresence(ctx *core.Ctx) {
 	if has(3) && c.Read == "must" && c.Entry == "render" && c.Var == "k" && c.Type == "string" {
 		if g := base.New().Get("d2"); g != "fromB" {
 			ctx.Violation("data-dir-order", "config", "a-then-b", fmt.Sprintf("d2=%q want fromB", g))
+		}
+		if g3, g4 := base.New().Get("d3"), base.New().Get("d4"); g3 != "fromB" || g4 != "fromCyaml" {
+			ctx.Violation("data-dir-order", "config", "yaml-and-yml", fmt.Sprintf("d3=%q want fromB (data/b.yml is after data/0.yaml), d4=%q want fromCyaml", g3, g4))
 		}
 	}
 }
